@@ -98,6 +98,10 @@ def gen_history(rng):
             # a sub-multiset of A, as the very objects that were laid out as part of A before
             ops.append(["nodes", "A-sub", "same-objects"])
             ops.append(["compute"])
+        elif r < 0.83:
+            # a compute() that fails on a bad option value (unknown algorithm), the option is then put back
+            ops.append(["failing-compute"])
+            ops.append(["compute"])
         elif r < 0.86:
             # another engine with other options is constructed, configured and used in between (it stays alive)
             ops.append(["other-engine", rng.choice(OPTION_DELTAS + [{"maxPos": 5000, "density": 0.2}, {"minPos": None, "maxPos": None}]), rng.random() < 0.5])
@@ -210,6 +214,19 @@ def run_history(ctx, mon, h):
                 f.nodes(nodes)
                 objs[cur] = nodes
                 feats.add("permutation")
+            elif op[0] == "failing-compute":
+                if cur is None:
+                    continue
+                good = acc.get("algorithm", "overlap")
+                f.set_options({"algorithm": "no-such-algorithm"})
+                try:
+                    f.compute()
+                    ctx.path("failing-compute-did-not-fail")
+                except Exception:
+                    ctx.path("failing-compute-raised")
+                mon.drain()
+                f.set_options({"algorithm": good})
+                feats.add("after-a-failing-compute")
             elif op[0] == "other-engine":
                 g2 = Force(dict(op[1]))
                 if op[2]:
